@@ -1331,3 +1331,36 @@ impl Actor for NodeSession {
         Ok(())
     }
 }
+
+/// Verification hooks (feature `verif`): thin, add-only wrappers that let an external
+/// harness call the private allow-list check directly.
+#[cfg(feature = "verif")]
+#[allow(missing_docs, missing_debug_implementations, unreachable_pub)]
+pub mod verif_hooks {
+    use super::*;
+
+    /// `NodeSessionState::authorized_local_actor(pid)` on an (authenticated, server-side)
+    /// session state whose allow-list is `advertised`. Returns whether the message would be
+    /// delivered and the allow-list afterwards (sorted).
+    pub fn authorized_local_actor(advertised: &[u64], pid: u64) -> (bool, Vec<u64>) {
+        let addr = SocketAddr::from(([0, 0, 0, 0], 0));
+        let mut state = NodeSessionState {
+            tcp: None,
+            ping_task: None,
+            peer_addr: addr,
+            local_addr: addr,
+            epoch: Instant::now(),
+            pong_warnings: PongWarnings::default(),
+            name: None,
+            connection_id: 0,
+            auth: AuthenticationState::AsServer(auth::ServerAuthenticationProcess::init()),
+            ready: ReadyState::Open,
+            remote_actors: HashMap::new(),
+            advertised_local_pids: advertised.iter().copied().collect(),
+        };
+        let ok = state.authorized_local_actor(pid).is_some();
+        let mut after: Vec<u64> = state.advertised_local_pids.iter().copied().collect();
+        after.sort_unstable();
+        (ok, after)
+    }
+}
